@@ -258,13 +258,17 @@ func fileCase(d desc, doc string, marker *cfg.Marker) lib.Case {
 		if o.Accepted {
 			deps = cfg.CDeps(conf.Integrations)
 		}
-		c.Coq += " " + coqTexts(apps) + " " + coqTexts(cur) + " " + deps
+		wire := "true"
+		if w.Exits {
+			wire = "false" // the process would exit in loadTasks (unparsable source URL): nothing to compare on the wire
+		}
+		c.Coq += " " + coqTexts(apps) + " " + coqTexts(cur) + " " + deps + " " + wire
 	}
 	if w.Err != "" {
 		c.OracleOK = false
 		c.OracleMsg = "file path on the wire: " + w.Err
 	}
-	depParam(&c, d, marker, o.Accepted && cfg.Loadable(conf.Sources, conf.Integrations), w.Params)
+	depParam(&c, d, marker, o.Accepted && !w.Exits && cfg.Loadable(conf.Sources, conf.Integrations), w.Params)
 	if o.Accepted && c.OracleOK {
 		if msg := refsResolved(conf); msg != "" {
 			c.OracleOK = false
@@ -509,6 +513,19 @@ func identifiers(seed string) []string {
 	return out
 }
 
+// thoroughSubset: positions that no statement names (urls, filter operators and arguments,
+// event and input names and ABI types) get the basic markers and a third of the others in the
+// thorough tier.
+func thoroughSubset(ms []int) []int {
+	var out []int
+	for _, m := range ms {
+		if m < 8 || m%3 == 0 {
+			out = append(out, m)
+		}
+	}
+	return out
+}
+
 // identifierLike: the position is a name, column, table, integration reference,
 // column type, unique/index/notification entry — something a statement may
 // name.  The others (urls, filter operators and arguments, event and input
@@ -632,6 +649,9 @@ func run(c lib.Cfg) error {
 			if !c.Thorough() && !idxPos && !identifierLike(p.Path) {
 				ms = ms[:1] // quick tier: one (hostile) marker on positions that no statement names
 			}
+			if c.Thorough() && !idxPos && !identifierLike(p.Path) {
+				ms = thoroughSubset(ms)
+			}
 			for _, m := range ms {
 				descs = append(descs, desc{Stream: "file-pos", Seed: seed, Path: p.Path, Marker: m})
 			}
@@ -657,13 +677,19 @@ func run(c lib.Cfg) error {
 						ms = ms[:1]
 					}
 				}
+				if c.Thorough() && !idxPos && !identifierLike(p.Path) {
+					ms = thoroughSubset(ms)
+				}
 				for _, m := range ms {
 					descs = append(descs, desc{Stream: "dash-pos", Seed: seed, Path: p.Path, Marker: m, Ig: ig})
 				}
 				idxPos = false
 			}
 			for _, id := range identifiers(seed) {
-				for _, m := range pickRename() {
+				for q, m := range pickRename() {
+					if c.Thorough() && (q+ig)%2 == 1 {
+						continue // thorough tier: the dashboard renames take every second marker, alternating by integration
+					}
 					descs = append(descs, desc{Stream: "dash-rename", Seed: seed, Path: id, Marker: m, Ig: ig})
 				}
 			}
